@@ -94,11 +94,18 @@ func gen(g *common.Gen) {
 				g.Op("find %s %d %d", common.NameText(n), cbp, mbf)
 				g.Stat("find-cbp" + strconv.Itoa(cbp) + "-mbf" + strconv.Itoa(mbf))
 			case x < 77:
-				g.Op("cap %d", r.Range(0, 8))
+				k := r.Range(0, 8)
+				if r.Chance(1, 3) {
+					k = capK // back to exactly the start-up capacity
+				}
+				g.Op("cap %d", k)
 				g.Stat("cap")
 			case x < 82:
 				// the same change through the management module (cs/config), with and without Flags+Mask
 				k := strconv.Itoa(r.Range(0, 8))
+				if r.Chance(1, 3) {
+					k = strconv.Itoa(capK)
+				}
 				fm := common.Pick(r, []int{0, 0, 1, 1, 1, 2})
 				if r.Chance(1, 8) {
 					k = "-"
@@ -120,6 +127,7 @@ func gen(g *common.Gen) {
 // ------------------------------------------------------------------ executor
 
 var (
+	cfgC07   *core.Config
 	mg       *mgmt.Thread
 	mgTr     *face.InternalTransport
 	pc       *table.PitCsTree
@@ -138,7 +146,9 @@ func exec(op string) string {
 	}
 	switch f[0] {
 	case "new":
-		table.SetCsCapacity(common.Atoi(f[1]))
+		// the store starts from a CONFIGURED capacity (start-up value in the core config), as the daemon does
+		cfgC07.Tables.ContentStore.Capacity = uint16(common.Atoi(f[1]))
+		table.Configure()
 		pc = table.NewPitCS(func(table.PitEntry) {})
 		go func(c <-chan struct{}) { <-c }(pc.UpdateTimer()) // consume the single armed update signal
 		seen = map[string]enc.Name{}
@@ -245,6 +255,7 @@ func exec(op string) string {
 
 func TestVerif(t *testing.T) {
 	cfg := core.DefaultConfig()
+	cfgC07 = cfg
 	cfg.Core.LogLevel = "FATAL"
 	core.LoadConfig(cfg, "")
 	core.InitializeLogger("/dev/null")
